@@ -232,6 +232,33 @@ func c11Moment(w *W, st ref.Stamp, class string) {
 	for sect := 1; sect <= 2; sect++ {
 		c11Chart(w, st, sect)
 	}
+	// switching the convention on ONE chart object: after SetSect(x) every accessor must equal a fresh chart with sect x
+	if st.H == 23 || (st.D+st.Mi)%5 == 0 {
+		fresh := func(sect int) string {
+			e := solarOf(st).GetLunar().GetEightChar()
+			e.SetSect(sect)
+			return strings.Join(filterParts(digest1(e), []string{"GetLunar="}), ";")
+		}
+		f1, f2 := fresh(1), fresh(2)
+		one := solarOf(st).GetLunar().GetEightChar()
+		seq := []int{2, 1, 2, 1}
+		if st.S%2 == 0 {
+			seq = []int{1, 2, 1, 2}
+		}
+		for i, sect := range seq {
+			one.SetSect(sect)
+			got := strings.Join(filterParts(digest1(one), []string{"GetLunar="}), ";")
+			want := f1
+			if sect == 2 {
+				want = f2
+			}
+			if got != want {
+				w.Violatef("chart-sect-switch", fmt.Sprintf("%s/step%d", key, i), "one EightChar at %s after the SetSect sequence %v: accessors differ from a fresh chart with sect %d: %s", key, seq[:i+1], sect, diffDigests(got, want))
+			}
+			w.Eval(1)
+		}
+		w.Count("sect-switch-sequences", 1)
+	}
 	w.Distinct(1)
 	w.Count(class, 1)
 }
